@@ -91,6 +91,31 @@ def _R(x):
     return "(%d / %d)" % (f.numerator, f.denominator)
 
 
+def _lifted(fn):
+    """Every plain number stored inside an object array the code returns becomes a traced constant, so that the traced output
+    list does not depend on whether the code writes a matrix entry as the int 0, the float 0.0 or a computed value (plain
+    ints inside an object array would otherwise be reported as concrete structure and drop out of the list of expressions).
+    Integer-dtype arrays (index tables) and float runs (validation) are left as they are."""
+    import symtrace
+
+    def lift(t, x):
+        if isinstance(x, (tuple, list)):
+            return type(x)(lift(t, y) for y in x)
+        if isinstance(x, np.ndarray) and x.dtype == object:
+            out = np.empty(x.shape, dtype=object)
+            flat = out.reshape(-1)
+            for k, e in enumerate(x.reshape(-1)):
+                flat[k] = e if isinstance(e, symtrace.Sym) else t.lift(e)
+            return out
+        return x
+
+    def run(**kw):
+        res = fn(**kw)
+        t = next((e.t for a in kw.values() for e in np.asarray(a, dtype=object).reshape(-1) if isinstance(e, symtrace.Sym)), None)
+        return res if t is None else lift(t, res)
+    return run
+
+
 def kernels():
     from polliwog.transform import (view_to_orthographic_projection, viewport_transform, world_to_canvas_orthographic_projection,
                                     world_to_view)
@@ -217,7 +242,13 @@ Definition seg (k : nat) (l : list R) : list R := firstn 16 (skipn (16 * k) l).
       matrices in order (view applied first; for inverse=True the stage inverses in reverse order) *)
 Lemma {T}_compose : forall {vars} : R,
   seg 0 %(L)s = mlist (mmul ROps (mmul ROps %(order)s).
-Proof. intros. unfold {T}. cbv [seg firstn skipn Nat.mul Nat.add m4l]; munf. %(gen)s. list_eq ltac:(first [reflexivity | ring]). Qed.
+Proof. intros. unfold {T}. cbv [seg firstn skipn Nat.mul Nat.add m4l nfrac]; munf. %(gen)s.
+  (* reciprocals of non-constant terms become atoms (both sides come from the same run, so they are syntactically equal);
+     what is left for `field` are reciprocals of numerals, e.g. when the code folds 0.5 * c into one binary64 constant *)
+  unfold Rdiv.
+  repeat match goal with |- context [/ ?x] =>
+    lazymatch x with IZR _ => fail | _ => let i := fresh "ri" in generalize (/ x); intro i end end.
+  list_eq ltac:(first [reflexivity | ring | field]). Qed.
 
 (* 2. the stages are the modelled ones, with width/zoom, height/zoom, the default up = y, the viewport (0,0)-(w,h).  The two z
       entries of the projection matrix are whatever closed constants the code produced from near=0.1 (binary64), far=2000
@@ -255,6 +286,8 @@ Qed."""
         ks.append(Kernel("canvas_inv" if inverse else "canvas",
                          {"w": [640.0], "h": [480.0], "p": [1.0, 2.0, 3.0], "t": [0.5, -1.0, 4.0], "zm": [1.5]},
                          canvas_dir(inverse), text, imports=_IMPORTS, timeout=250))
+    for k in ks:
+        k.call = _lifted(k.call)
     return ks
 
 
